@@ -4,7 +4,7 @@ func init() {
 	Register(&Property{
 		ID: "C11",
 		Decides: "(R11.1) the block writer's Save is reached only after the computed manifest was tested non-nil and its hash compared equal to the ACCEPT majority's new-block hash; " +
-			"(R11.2) the processor's Save is reached only for a height strictly above previousSaved and for the matching proposal fact, previousSaved is stored (with that height) before Save, only there, under the processors' lock; " +
+			"(R11.2) the processor's Save is reached only for a height strictly above previousSaved — that height being the height of the block saved (violated today: known finding) — and for the matching proposal fact, previousSaved is stored (with that height) before Save, only there, under the processors' lock; " +
 			"(R11.3) DefaultProposalProcessor.Save/Process are one-shot (issaved/isprocessed tested and set under processlock, issaved set before the inner save); " +
 			"(R11.4) every saveBlock call is reached only for a MAJORITY result; (R11.5) who may call the block writer's Save / the processor's Save.",
 		NotDecided: "cancellation races inside the block writer; that the manifest was computed from the proposal's operations (C10); behaviour of ProposalProcessor implementations other than DefaultProposalProcessor.",
@@ -36,6 +36,19 @@ func runC11(c *Ctx) {
 			GTrue("pps.p.Proposal().Fact().Hash().Equal(facthash)"), GTrue("facthash.Equal(pps.p.Proposal().Fact().Hash())"))
 		c.Rule("R11.2c", "MustPass")
 		c.MP(fn, "call ProposalProcessor.Save: processor not nil", saves, 1, GNonNil("pps.p"))
+		// the once-per-height guard reads the voteproof's height while the block saved has the proposal's:
+		// the two must be tied (here, or in the processor's own save through the manifest's height)
+		tied := allOK(c.MustPass(fn, nil, saves,
+			GTrue("pps.p.Proposal().Point().Equal(avp.Point().Point)"), GTrue("avp.Point().Point.Equal(pps.p.Proposal().Point())"),
+			GCmp("pps.p.Proposal().Point().Height()", "==", "avp.Point().Height()"), GCmp("pps.p.Proposal().Point().Height()", ">", "pps.previousSaved")))
+		if !tied {
+			if inner := c.Need("isaac.(*DefaultProposalProcessor).save"); inner != nil {
+				tied = allOK(c.MustPass(inner, nil, c.CallsD(inner, "p.writer.Save(*)"),
+					GCmp("p.manifest.Height()", "==", "avp.Point().Height()"), GTrue("p.proposal.Point().Equal(avp.Point().Point)"), GTrue("p.proposal.ProposalFact().Point().Equal(avp.Point().Point)")))
+			}
+		}
+		c.Report(fn, "the height the once-per-height guard reads is the height of the block that gets saved", fn.Pos(), tied,
+			"neither save() compares the ACCEPT voteproof's point with the proposal's point (or the manifest's height)")
 		c.Rule("R11.2d", "MustPass")
 		c.MP(fn, "call ProposalProcessor.Save: previousSaved stored first", saves, 1, GStored("&pps.previousSaved"))
 		c.ArgIs(fn, "call ProposalProcessor.Save: the same voteproof", saves, 1, 1, "avp")
